@@ -218,6 +218,63 @@ theorem introduction_request_wire_roundtrip (ip1 ip2 ip3 x : Bytes) (p1 p2 p3 ad
 example : (findPayload "ipv8.messaging.payload.IntroductionRequestPayload").map (·.fmts) =
     some (.cons .ipv4 (.cons .ipv4 (.cons .ipv4 (.cons .bits (.cons (.struct [.uint 2]) (.cons .raw .nil)))))) := by decide
 
+/-- SimilarityResponsePayload: one `tb_overlap` record is the 20-byte hash followed by the count as a 4-byte BIG-ENDIAN
+    unsigned integer -/
+theorem tb_overlap_layout (h : Bytes) (k : Nat) (hl : h.length = 20) (hk : k < 256 ^ 4) :
+    Old.joinTb [.tuple [.bytes h, .nat k]] = some (h ++ beEnc 4 k) := by
+  have hpad : fixedPad 20 h = h := by rw [← hl]; exact fixedPad_self h
+  simp [Old.joinTb, hk, hpad]
+
+/-- SimilarityResponsePayload: `from_unpack_list(*to_pack_list())` restores identifier, every 20-byte preference and every
+    `(hash, count)` overlap record, for lists of any length -/
+theorem similarity_response_fields_roundtrip (ident : Nat) (prefs tb : ValList) (hi : ident < 65536)
+    (hp : ∀ e ∈ prefs.toList, wfPref e = true) (ht : ∀ e ∈ tb.toList, wfTb e = true)
+    (pl : List Val) (hpl : Old.simRespPack [.atom (.nat ident), .list prefs, .list tb] = some pl) :
+    Old.simRespUnpack pl = some [.atom (.nat ident), .list prefs, .list tb] := by
+  simp only [Old.simRespPack] at hpl
+  cases hj : Old.joinBytes prefs.toList with
+  | none => simp [hj] at hpl
+  | some pb =>
+    cases hk : Old.joinTb tb.toList with
+    | none => simp [hj, hk] at hpl
+    | some tbb =>
+      simp [hj, hk] at hpl
+      subst hpl
+      have e1 := splitTb_joinTb tb.toList tbb hk ht
+      have e2 : (Old.chunks 20 pb).map (fun c => Val.atom (.bytes c)) = prefs.toList := by
+        simp only [Old.chunks]
+        exact chunksAux_joinBytes prefs.toList pb pb.length hj hp (Nat.le_refl _)
+      simp [Old.simRespUnpack, e1, Old.bytesList, e2, ofList_toList, Nat.mod_eq_of_lt hi]
+
+/-! ## dataclass-defined payloads: the conversion state does not depend on the instantiation history -/
+
+/-- after ANY sequence of instantiations (of this class, its bases, its subclasses, unrelated classes, in any order) a
+    class that has been instantiated at least once carries ITS OWN full field list (inherited + own), not a base's -/
+theorem dataclass_names_history_independent (all : Nat → List String) (parent : Nat → Option Nat)
+    (h : List Nat) (c fuel : Nat) (hc : c ∈ h) :
+    Dc.lookupNames parent (Dc.run all h) (fuel + 1) c = all c := by
+  have := Dc.foldl_keeps all h Dc.init c (Or.inl hc)
+  simp [Dc.lookupNames, Dc.run, this]
+
+/-- `payload_dataclass.type_map` (evaluated on the live module) is the frozen one and only names registered formats -/
+theorem dataclass_type_map_frozen : typeMap = frozenTypeMap ∧ ∀ e ∈ typeMap, (lookup packers e.2).isSome = true := by
+  decide
+
+/-- the model distinguishes the "convert only while `cls.names` is empty" policy: base first, then the derived class —
+    the derived class keeps the base's single field -/
+example : Dc.lookupNames (fun c => if c = 1 then some 0 else none)
+      ([0, 1].foldl (Dc.instantiateLazy (fun c => if c = 0 then ["identifier"] else ["identifier", "blob", "flag"])
+        (fun c => if c = 1 then some 0 else none) 3) Dc.init) 3 1 = ["identifier"] := by decide
+
+/-- … while the modelled (actual) policy gives the derived class all three fields in that history -/
+example : Dc.lookupNames (fun c => if c = 1 then some 0 else none)
+      (Dc.run (fun c => if c = 0 then ["identifier"] else ["identifier", "blob", "flag"]) [0, 1]) 3 1
+    = ["identifier", "blob", "flag"] := by decide
+
+/-- two overlap records with counters 1 and 2^32-1 -/
+example : Old.joinTb [.tuple [.bytes (List.replicate 20 0xAA), .nat 1], .tuple [.bytes (List.replicate 20 0xBB), .nat 4294967295]]
+    = some (List.replicate 20 0xAA ++ [0, 0, 0, 1] ++ List.replicate 20 0xBB ++ [255, 255, 255, 255]) := by decide
+
 /-! ## non-vacuity: the hypotheses are satisfiable by concrete, non-trivial values -/
 
 /-- a `varlenH-list` of two byte strings followed by `bits`, at offset 3, with a suffix -/
